@@ -12,7 +12,8 @@ GET_TRAIT = "selection::Get"
 BOX_PROCESS = "std::boxed::Box<dyn processor::Process>"
 LOOK = ("Try>::branch", "Try::branch", "Clone>::clone", "Deref>::deref", "DerefMut>::deref_mut",
         "AsRef>::as_ref", "Borrow>::borrow", "AsMut>::as_mut", "BorrowMut>::borrow_mut",
-        "convert::AsRef::as_ref", "convert::AsMut::as_mut", "borrow::Borrow::borrow", "borrow::BorrowMut::borrow_mut")
+        "convert::AsRef::as_ref", "convert::AsMut::as_mut", "borrow::Borrow::borrow", "borrow::BorrowMut::borrow_mut",
+        "Result::<T, E>::map_err")        # the Ok payload passes through unchanged
 
 
 def is_box_process(ty):
@@ -195,3 +196,184 @@ def ret_locals(body):
                 ret.add(rv["op"]["place"]["l"])
                 grew = True
     return ret
+
+
+CAPACITY_SINKS = ("::with_capacity", "::reserve", "::reserve_exact", "::shrink_to", "::try_reserve")
+PURE_SIZE_CALLS = ("::len", "::capacity", "::min", "::max", "::count", "Ord::min", "Ord::max")
+
+
+def hint_fields(lib, struct_path):
+    """Fields of `struct_path` that are nothing but capacity hints: {field index: (bounded, switch blocks per body)}.
+
+    A field qualifies when, in every body of the crate, (1) each read of it goes only into a capacity argument
+    (with_capacity / reserve ...), or into a comparison whose outcome decides nothing but whether the field itself is
+    updated (the blocks the branch dominates contain only size computations and assignments to that field), and
+    (2) each write stores a constant or the result of len / min / max. Such a field cannot influence what is
+    written or decided; `bounded` is True when every stored value is a constant or min(.., constant)."""
+    from lib.prov import Prov
+    adt = lib.adts.get(struct_path)
+    if not adt or len(adt["variants"]) != 1:
+        return {}
+    out = {}
+    nfields = len(adt["variants"][0]["fields"])
+    for fi in range(nfields):
+        fty = adt["variants"][0]["fields"][fi]["ty"]
+        if fty not in ("usize", "u64", "u32"):
+            continue
+        f = "f%d" % fi
+        ok = True
+        bounded = True
+        touched = False
+        switches = {}
+        for name, b in lib.bodies.items():
+            if b.arg_count < 1 or _strip_ty(b.local_ty(1)) != struct_path:
+                # the field of this struct reached through another local: only constructors (aggregates) are allowed
+                continue
+            pr = None
+
+            def is_f(place):
+                return place["l"] == 1 and [p for p in place["p"] if p != "deref"] == [f]
+            reads = []
+            for bb, idx, place, rv, _ in b.assignments():
+                if is_f(place):
+                    touched = True
+                    pr = pr or Prov(b, LOOK)
+                    at = [a for a in pr._rv_origins_at(rv, (), bb, idx, set()) if a[0] not in ("via", "op")]
+                    for a in at:
+                        if a[0] == "const":
+                            continue
+                        if a[0] == "call" and (b.call_at[a[1]].name or "").endswith(PURE_SIZE_CALLS):
+                            c = b.call_at[a[1]]
+                            if not ((c.name or "").endswith(("::min", "Ord::min")) and any(
+                                    o.get("k") == "const" or all(x[0] == "const" for x in pr.origins(o) if x[0] not in ("via", "op"))
+                                    for o in c.args)):
+                                bounded = False
+                            continue
+                        if a[0] == "arg" and a[1] == 1 and [p for p in a[2] if p != "deref"] == [f]:
+                            continue
+                        ok = False
+                for o in _rv_operands(rv):
+                    if o.get("k") in ("copy", "move") and is_f(o["place"]):
+                        reads.append((bb, idx, place, rv))
+                if rv["k"] == "ref" and is_f(rv["place"]):
+                    ok = False
+            for c in b.calls:
+                for a in c.args:
+                    if a.get("k") in ("copy", "move") and is_f(a["place"]):
+                        touched = True
+                        if not (c.name or "").endswith(CAPACITY_SINKS):
+                            ok = False
+            for bb, idx, place, rv in reads:
+                touched = True
+                if place["p"]:
+                    ok = False
+                    continue
+                # the temporary the field was copied into: follow its single use
+                uses = _uses_of(b, place["l"])
+                for kind, where in uses:
+                    if kind == "callarg":
+                        if not (where.name or "").endswith(CAPACITY_SINKS + PURE_SIZE_CALLS):
+                            ok = False
+                    elif kind == "cmp":
+                        sw = _switch_on(b, where)
+                        if sw is None or not _region_only_updates(b, sw, f):
+                            ok = False
+                        else:
+                            switches.setdefault(name, set()).add(sw)
+                    elif kind == "self-assign":
+                        pass
+                    else:
+                        ok = False
+        if ok and touched:
+            out[fi] = (bounded, switches)
+    return out
+
+
+def _strip_ty(ty):
+    t = ty.strip()
+    while t.startswith("&"):
+        t = t[1:].lstrip()
+        if t.startswith("mut "):
+            t = t[4:].lstrip()
+    return t.split("<")[0]
+
+
+def _rv_operands(rv):
+    k = rv["k"]
+    if k in ("use", "cast", "repeat"):
+        return [rv["op"]]
+    if k == "binop":
+        return [rv["a"], rv["b"]]
+    if k == "unop":
+        return [rv["a"]]
+    if k == "agg":
+        return list(rv["ops"])
+    return []
+
+
+def _uses_of(b, l):
+    """[(kind, payload)] uses of temporary l: 'callarg' (Call), 'cmp' (dest local of a comparison), 'self-assign',
+    'other'."""
+    out = []
+    for bb, idx, place, rv, _ in b.assignments():
+        ops = _rv_operands(rv)
+        if any(o.get("k") in ("copy", "move") and o["place"]["l"] == l and not o["place"]["p"] for o in ops):
+            if rv["k"] == "binop" and rv["op"] in ("Lt", "Le", "Gt", "Ge", "Eq", "Ne") and not place["p"]:
+                out.append(("cmp", place["l"]))
+            elif rv["k"] == "use" and not place["p"]:
+                out.extend(_uses_of(b, place["l"]))
+            else:
+                out.append(("other", (bb, idx)))
+        if rv["k"] in ("ref", "discr") and rv["place"]["l"] == l:
+            out.append(("other", (bb, idx)))
+    for c in b.calls:
+        if any(a.get("k") in ("copy", "move") and a["place"]["l"] == l for a in c.args):
+            out.append(("callarg", c))
+    for i in range(b.n):
+        t = b.term(i)
+        if t["k"] == "switch" and t["discr"].get("k") in ("copy", "move") and t["discr"]["place"]["l"] == l:
+            out.append(("other", (i, "switch")))
+    return out
+
+
+def _switch_on(b, l):
+    for i in range(b.n):
+        t = b.term(i)
+        if t["k"] == "switch" and t["discr"].get("k") in ("copy", "move") and t["discr"]["place"]["l"] == l \
+                and not t["discr"]["place"]["p"]:
+            return i
+    return None
+
+
+def _region_only_updates(b, sw, f):
+    """Every block that one arm of switch `sw` dominates holds nothing but size computations and assignments to the
+    field `f` of self (and temporaries)."""
+    for tg in b.succ(sw):
+        if len([p for p in b.pred(tg)]) > 1:
+            continue          # the join: not part of an arm
+        region = [x for x in range(b.n) if not b.blocks[x]["cleanup"] and b.dominates(tg, x)
+                  and len(b.pred(x)) >= 0]
+        # stop at the first block with several predecessors (the join)
+        arm = []
+        work = [tg]
+        seen = set()
+        while work:
+            x = work.pop()
+            if x in seen or (x != tg and len(b.pred(x)) > 1):
+                continue
+            seen.add(x)
+            arm.append(x)
+            work.extend(y for y in b.succ(x) if not b.blocks[y]["cleanup"])
+        for x in arm:
+            t = b.term(x)
+            if t["k"] == "return":
+                return False
+            if t["k"] == "call":
+                c = b.call_at.get(x)
+                if c is None or not (c.name or "").endswith(PURE_SIZE_CALLS):
+                    return False
+            for st in b.stmts(x):
+                if st["k"] == "assign" and st["place"]["p"]:
+                    if not (st["place"]["l"] == 1 and [p for p in st["place"]["p"] if p != "deref"] == [f]):
+                        return False
+    return True
